@@ -137,8 +137,12 @@ class RenderContext:
             root_package = self.output_package_name.split(".")[0]  # "pyapis" from "pyapis.business"
             package_suffix = ".".join(self.output_package_name.split(".")[1:])  # "business" from "pyapis.business"
 
-            # Check if this is an incomplete internal module path
-            if package_suffix and logical_module.startswith(f"{package_suffix}."):
+            # Check if this is an incomplete internal module path (a module of the core package is never one:
+            # output "acme.shared" with the top-level core "shared.core" must keep "shared.core.*" as it is)
+            in_core_package = logical_module == self.core_package_name or logical_module.startswith(
+                self.core_package_name + "."
+            )
+            if package_suffix and logical_module.startswith(f"{package_suffix}.") and not in_core_package:
                 # This is an incomplete path like "business.models.agent"
                 # Convert to complete path like "pyapis.business.models.agent"
                 logical_module = f"{root_package}.{logical_module}"
@@ -299,8 +303,12 @@ class RenderContext:
             root_package = self.output_package_name.split(".")[0]  # "pyapis" from "pyapis.business"
             package_suffix = ".".join(self.output_package_name.split(".")[1:])  # "business" from "pyapis.business"
 
-            # Check if this is an incomplete internal module path
-            if package_suffix and logical_module.startswith(f"{package_suffix}."):
+            # Check if this is an incomplete internal module path (a module of the core package is never one:
+            # output "acme.shared" with the top-level core "shared.core" must keep "shared.core.*" as it is)
+            in_core_package = logical_module == self.core_package_name or logical_module.startswith(
+                self.core_package_name + "."
+            )
+            if package_suffix and logical_module.startswith(f"{package_suffix}.") and not in_core_package:
                 # This is an incomplete path like "business.models.agent"
                 # Convert to complete path like "pyapis.business.models.agent"
                 logical_module = f"{root_package}.{logical_module}"
